@@ -447,8 +447,23 @@ type c18Runner struct {
 	subRes  []int
 	ownLive map[[2]int]bool // (sub,h) added with own timer and not removed since (the harness's record of its own calls)
 	steps   []c18Step
-	windows []int // indices of event steps emitted inside a replay window
-	goErrs  []string
+	windows []int    // indices of event steps emitted inside a replay window
+	goErrs  []string // failures of the harness's own environment (not of the code under test)
+	anoms   []int    // see c_anomalies in Check/C18_check.v
+
+	pubMu    sync.Mutex // what the watchdog may read while the scenario goroutine is stuck
+	pubSteps []c18Step
+	pubWins  []int
+	pubAnoms []int
+}
+
+// publish makes the operations completed so far visible to the watchdog.
+func (rn *c18Runner) publish() {
+	rn.pubMu.Lock()
+	rn.pubSteps = append([]c18Step(nil), rn.steps...)
+	rn.pubWins = append([]int(nil), rn.windows...)
+	rn.pubAnoms = append([]int(nil), rn.anoms...)
+	rn.pubMu.Unlock()
 }
 
 func (rn *c18Runner) obj(r, o int, rev int) map[string]interface{} {
@@ -517,7 +532,7 @@ func (rn *c18Runner) do(_ int, op c18Op) {
 		var err error
 		rn.guarded(&st, func() { ri, err = rn.w.factory.Resource(res.APIVersion(), res.Resource) })
 		if err == nil && !st.panic {
-			rn.goErrs = append(rn.goErrs, fmt.Sprintf("Resource() for %s, unknown to discovery, did not fail", rn.w.key(op.R)))
+			rn.anoms = append(rn.anoms, 2)
 			if ri != nil {
 				ri.Close()
 			}
@@ -821,7 +836,11 @@ func (rn *c18Runner) removeWindow(op c18Op) {
 			st1.issues = append(st1.issues, "barrier-timeout")
 		}
 	}
-	time.Sleep(c18Settle)
+	if rn.subHasOwn(op.S) {
+		time.Sleep(3 * c18TickPeriod) // a timer that survived the removal would fire now
+	} else {
+		time.Sleep(c18Settle)
+	}
 	rn.rec.mu.Lock()
 	rn.rec.park = nil
 	rn.rec.lateFor = -1
@@ -864,29 +883,103 @@ type c18Result struct {
 	steps   []c18Step
 	windows []int
 	goErrs  []string
+	hungAt  int // index of the operation that never returned, -1 if none
+	anoms   []int
 }
 
-func c18Run(spec c18Spec) c18Result {
-	w := newC18World(spec.NRes)
-	rn := &c18Runner{w: w, rec: &c18Rec{lateFor: -1}, ownLive: map[[2]int]bool{}}
-	defer rn.cleanup()
-	var goErrs []string
-	if spec.Conc > 0 {
-		goErrs = rn.concurrentSubscribe(spec.Conc, spec.Ops[0].R)
-	}
-	for i, op := range spec.Ops {
-		if i >= spec.Conc {
-			rn.do(i, op)
+// c18OpTimeout: how long one operation of a scenario (or the final cleanup) may
+// take before the watchdog gives the scenario up (VERIF_C18_OPTIMEOUT, seconds).
+// Every wait inside the harness is bounded well below this on a healthy tree.
+func c18OpTimeout() time.Duration {
+	if v := os.Getenv("VERIF_C18_OPTIMEOUT"); v != "" {
+		var sec float64
+		if _, err := fmt.Sscanf(v, "%g", &sec); err == nil && sec > 0 {
+			return time.Duration(sec * float64(time.Second))
 		}
 	}
-	for i := range rn.steps {
-		for _, d := range rn.steps[i].dels {
+	return 8 * time.Second
+}
+
+func c18CountNotes(steps []c18Step) {
+	for i := range steps {
+		steps[i].notes = 0
+		for _, d := range steps[i].dels {
 			if d.kind != 'S' {
-				rn.steps[i].notes++
+				steps[i].notes++
 			}
 		}
 	}
-	return c18Result{spec: spec, steps: rn.steps, windows: rn.windows, goErrs: append(goErrs, rn.goErrs...)}
+}
+
+// c18Run runs one scenario in its own goroutine, on its own server and factory,
+// under a watchdog: if an operation does not return in time (a deadlock in the
+// code under test) the scenario is given up - its goroutines are leaked - and
+// reported with the operations completed so far and the index of the one that
+// hung. A panic that escapes an operation is recovered and reported as well.
+func c18Run(spec c18Spec) c18Result {
+	w := newC18World(spec.NRes)
+	rn := &c18Runner{w: w, rec: &c18Rec{lateFor: -1}, ownLive: map[[2]int]bool{}}
+	bound := c18OpTimeout()
+	progress := make(chan int, len(spec.Ops)+4)
+	finished := make(chan struct{})
+	var concErrs []string
+	go func() {
+		defer close(finished)
+		defer func() {
+			if r := recover(); r != nil {
+				rn.anoms = append(rn.anoms, 4)
+				rn.publish()
+			}
+		}()
+		if spec.Conc > 0 {
+			concErrs = rn.concurrentSubscribe(spec.Conc, spec.Ops[0].R)
+			rn.publish()
+			progress <- spec.Conc
+		}
+		for i, op := range spec.Ops {
+			if i >= spec.Conc {
+				rn.do(i, op)
+				rn.publish()
+				progress <- i + 1
+			}
+		}
+		rn.cleanup()
+		rn.publish()
+	}()
+	at := 0
+	timer := time.NewTimer(bound)
+	defer timer.Stop()
+	for {
+		select {
+		case n := <-progress:
+			at = n
+			if !timer.Stop() {
+				select {
+				case <-timer.C:
+				default:
+				}
+			}
+			timer.Reset(bound)
+		case <-finished:
+			c18CountNotes(rn.steps)
+			return c18Result{spec: spec, steps: rn.steps, windows: rn.windows, goErrs: append(concErrs, rn.goErrs...),
+				hungAt: -1, anoms: rn.anoms}
+		case <-timer.C:
+			// drain a progress message that raced with the timer
+			select {
+			case n := <-progress:
+				at = n
+				timer.Reset(bound)
+				continue
+			default:
+			}
+			rn.pubMu.Lock()
+			steps, wins, anoms := rn.pubSteps, rn.pubWins, rn.pubAnoms
+			rn.pubMu.Unlock()
+			c18CountNotes(steps)
+			return c18Result{spec: spec, steps: steps, windows: wins, hungAt: at, anoms: anoms}
+		}
+	}
 }
 
 // concurrentSubscribe: k goroutines, released together, call
@@ -908,6 +1001,11 @@ func (rn *c18Runner) concurrentSubscribe(k, r int) []string {
 		done.Add(1)
 		go func(g int) {
 			defer done.Done()
+			defer func() {
+				if p := recover(); p != nil {
+					errs[g] = fmt.Errorf("panic: %v", p)
+				}
+			}()
 			atomic.AddInt32(&arrived, 1)
 			for atomic.LoadInt32(&arrived) < int32(k) {
 				if yield {
@@ -920,8 +1018,8 @@ func (rn *c18Runner) concurrentSubscribe(k, r int) []string {
 	done.Wait()
 	var issues []string
 	for g := 0; g < k; g++ {
-		if errs[g] != nil {
-			panic(fmt.Sprintf("c18: Resource(): %v", errs[g]))
+		if errs[g] != nil || ris[g] == nil {
+			panic(fmt.Sprintf("c18: Resource(): %v", errs[g])) // recovered by c18Run: anomaly 4
 		}
 		rn.subs = append(rn.subs, ris[g])
 		rn.subRes = append(rn.subRes, r)
@@ -965,7 +1063,7 @@ func (rn *c18Runner) concurrentSubscribe(k, r int) []string {
 	ref := w.factory.refCount[w.key(r)]
 	w.factory.mutex.Unlock()
 	if ref != k && lists[r] == 1 && watch[r] == 1 {
-		return []string{fmt.Sprintf("%d concurrent Resource() calls for %s: one informer was started but refCount is %d, want %d", k, w.key(r), ref, k)}
+		rn.anoms = append(rn.anoms, 1)
 	}
 	return nil
 }
@@ -1001,7 +1099,7 @@ func c18WindowSpec(ncache, blk int, sameSub bool, twice bool) c18Spec {
 // B share an informer; B registers first or last; an event is parked inside the
 // first other handler that gets it while B removes its handlers. Afterwards B
 // must stay silent, and gets events again only after adding a new handler.
-func c18RemoveWindowSpec(nPark int, bFirst bool, ek string) c18Spec {
+func c18RemoveWindowSpec(nPark int, bFirst bool, ek string, own bool) c18Spec {
 	n := nPark + 1
 	b := n - 1
 	if bFirst {
@@ -1015,7 +1113,9 @@ func c18RemoveWindowSpec(nPark int, bFirst bool, ek string) c18Spec {
 		ops = append(ops, c18Op{Kind: "ev", R: 0, EK: "ADDED", O: 0})
 	}
 	for i := 0; i < n; i++ {
-		ops = append(ops, c18Op{Kind: "add", S: i, H: i})
+		// own: B's handler has its own short resync period, so one of its timer
+		// ticks is pending while the removal waits for the parked fan-out
+		ops = append(ops, c18Op{Kind: "add", S: i, H: i, Own: own && i == b})
 	}
 	ops = append(ops, c18Op{Kind: "remwin", S: b, R: 0, EK: ek, O: 0},
 		c18Op{Kind: "ev", R: 0, EK: "ADDED", O: 1},
@@ -1024,7 +1124,11 @@ func c18RemoveWindowSpec(nPark int, bFirst bool, ek string) c18Spec {
 	for i := 0; i < n; i++ {
 		ops = append(ops, c18Op{Kind: "close", S: i})
 	}
-	return c18Spec{NRes: 1, Ops: ops, Stream: "removal-window", Features: []string{"removal-window", "shared-informer"}}
+	feats := []string{"removal-window", "shared-informer"}
+	if own {
+		feats = append(feats, "own-timer")
+	}
+	return c18Spec{NRes: 1, Ops: ops, Stream: "removal-window", Features: feats}
 }
 
 // unknown-resource family: Resource() for a resource discovery does not know
@@ -1158,7 +1262,7 @@ func c18CoqCase(res c18Result) string {
 		fmt.Fprintf(&b, "mkObs %s [%s] %s %s %s", st.op.coq(), strings.Join(parts, "; "), vh.CoqBool(st.panic),
 			c18ZList(st.watch), c18ZList(st.lists))
 	}
-	b.WriteString("] " + c18ZList(res.windows))
+	b.WriteString("] " + c18ZList(res.windows) + " " + vh.CoqZ(int64(res.hungAt)) + " " + c18ZList(res.anoms))
 	return b.String()
 }
 
@@ -1500,8 +1604,12 @@ func c18Emit(t *testing.T, w *vh.CaseWriter, id string, res c18Result) {
 	if panicked {
 		feats = append(feats, "panic")
 	}
+	if res.hungAt >= 0 {
+		feats = append(feats, "operation-never-returned")
+	}
 	replay := map[string]interface{}{"seed": spec.Seed, "stream": spec.Stream, "nres": spec.NRes, "ops": spec.Ops,
-		"features": feats, "text": c18Text(spec.Ops), "harness_issues": issues}
+		"features": feats, "text": c18Text(spec.Ops), "harness_issues": issues, "conc": spec.Conc,
+		"hung_at_op": res.hungAt, "anomalies": res.anoms}
 	if err := w.Add(id, c18CoqCase(res), "C18_check", replay); err != nil {
 		t.Fatal(err)
 	}
@@ -1629,8 +1737,13 @@ func TestVerif_C18(t *testing.T) {
 			for nPark := 1; nPark <= 3; nPark++ {
 				for _, bFirst := range []bool{false, true} {
 					for _, ek := range []string{"ADDED", "MODIFIED", "DELETED"} {
-						push(fmt.Sprintf("rw%d", wn), c18RemoveWindowSpec(nPark, bFirst, ek))
+						push(fmt.Sprintf("rw%d", wn), c18RemoveWindowSpec(nPark, bFirst, ek, false))
 						wn++
+						if nPark == 2 && ek != "DELETED" {
+							// with an own resync timer on the remover (cache not empty for MODIFIED)
+							push(fmt.Sprintf("rw%d", wn), c18RemoveWindowSpec(nPark, bFirst, ek, true))
+							wn++
+						}
 					}
 				}
 			}
@@ -1674,7 +1787,26 @@ func TestVerif_C18(t *testing.T) {
 	if env.Tier == "thorough" {
 		workers = 8
 	}
+	// results are written in order as soon as they are there, so that the case
+	// files hold everything that ran even if the test binary dies later
 	results := make([]c18Result, len(specs))
+	ready := make([]bool, len(specs))
+	var emitMu sync.Mutex
+	emitted := 0
+	var envErrs []string
+	finish := func(i int, res c18Result) {
+		emitMu.Lock()
+		defer emitMu.Unlock()
+		results[i], ready[i] = res, true
+		for emitted < len(specs) && ready[emitted] {
+			c18Emit(t, w, ids[emitted], results[emitted])
+			for _, e := range results[emitted].goErrs {
+				envErrs = append(envErrs, fmt.Sprintf("case %s: %s", ids[emitted], e))
+			}
+			results[emitted] = c18Result{}
+			emitted++
+		}
+	}
 	var wg sync.WaitGroup
 	next := make(chan int)
 	for k := 0; k < workers; k++ {
@@ -1682,7 +1814,7 @@ func TestVerif_C18(t *testing.T) {
 		go func() {
 			defer wg.Done()
 			for i := range next {
-				results[i] = c18Run(specs[i])
+				finish(i, c18Run(specs[i]))
 			}
 		}()
 	}
@@ -1696,14 +1828,13 @@ func TestVerif_C18(t *testing.T) {
 	// the concurrent rounds run alone, so that their goroutines really run at once
 	for i := range specs {
 		if specs[i].Conc > 0 {
-			results[i] = c18Run(specs[i])
+			finish(i, c18Run(specs[i]))
 		}
 	}
-	for i := range specs {
-		c18Emit(t, w, ids[i], results[i])
-		for _, e := range results[i].goErrs {
-			t.Errorf("C18 case %s: %s", ids[i], e)
-		}
+	// only failures of the harness's own environment fail the test; what the code
+	// under test did wrong is in the cases and judged by C18_check
+	for _, e := range envErrs {
+		t.Errorf("C18 harness environment: %s", e)
 	}
 	if err := w.Close(map[string]interface{}{"workers": workers}); err != nil {
 		t.Fatal(err)
